@@ -5,7 +5,21 @@ ROOT = os.path.dirname(os.path.dirname(os.path.abspath(__file__)))
 sys.path.insert(0, ROOT)
 meta = json.load(open(os.path.join(ROOT, "manifest_meta.json")))
 checks = []
+
+
+def _current(pid):
+    """One sentence with the numbers of the last run, from the evidence file the check itself wrote."""
+    try:
+        cov = json.load(open(os.path.join(ROOT, "evidence", f"{pid}.json")))["coverage"]
+        return (f" Last run on this tree (evidence/{pid}.json): {len(cov.get('functions_under_contract', []))} functions / contract objects under "
+                f"contract, {cov.get('obligations')} obligations, {cov.get('discharged')} discharged, {len(cov.get('bounded_checks', []))} bounded stand-ins, "
+                f"{len(set(cov.get('known_findings_hit', [])))} obligations or bounded classes matched by listed known findings.")
+    except Exception:
+        return ""
+
+
 for pid, m in sorted(meta["checks"].items()):
+    m = dict(m, text=m["text"].rstrip() + _current(pid))
     checks.append(dict(
         property_id=pid,
         quick_cmd=f"./check {pid} --tier quick",
